@@ -182,6 +182,7 @@ pub fn update_twin_case(ch: &mut Chooser, t: &mut Tally) {
     let cached = ch.pick_free_named("cache", &["cached", "uncached"]) == 0;
     let first_read = ch.pick_free_named("read-before-the-update", &["typed", "raw", "none"]);
     let newv = ch.pick_free_named("new-value", &["int", "dict", "name"]);
+    let which = ch.pick_free_named("twin", &["ordinary-object", "object-stream-member"]);
     let old = Val::dict(vec![("V", Val::Int(1))]);
     let new_val = [Val::Int(2), Val::dict(vec![("V", Val::Int(2)), ("W", Val::name("x"))]), Val::name("replaced")][newv].clone();
     let mut fb = FileBuilder::new(b"");
@@ -193,7 +194,7 @@ pub fn update_twin_case(ch: &mut Chooser, t: &mut Tally) {
     fb.finish_stream(&[("Root", Val::r(1))], &XrefStreamOpts::new(10));
     let bytes = fb.bytes();
     t.evaluations += 1;
-    t.distinct.insert(fnv_mix(fnv(&bytes), (cached as u64) * 9 + first_read as u64 * 3 + newv as u64));
+    t.distinct.insert(fnv_mix(fnv(&bytes), (cached as u64) * 18 + first_read as u64 * 6 + newv as u64 * 2 + which as u64));
     macro_rules! body {
         ($file:expr) => {{
             let mut file = match $file {
@@ -214,15 +215,16 @@ pub fn update_twin_case(ch: &mut Chooser, t: &mut Tally) {
                     return Err(("twins-differ-before-update".into(), format!("direct {} compressed {}", a, b)));
                 }
             }
-            for id in [4u64, 5] {
-                if let Err(e) = file.update(PlainRef { id, gen: 0 }, val_to_prim(&new_val)) {
-                    return Err((format!("update-error:{}", err_variant(&e)), format!("object {}", id)));
-                }
+            // one twin is replaced per run (an update of the other one would clear the caches and hide what this one leaves)
+            let id = [4u64, 5][which];
+            if let Err(e) = file.update(PlainRef { id, gen: 0 }, val_to_prim(&new_val)) {
+                return Err((format!("update-error:{}", err_variant(&e)), format!("object {}", id)));
             }
+            let want = show_prim(&val_to_prim(&new_val));
             for typed in [true, false] {
-                let (a, b) = (read(&file, 4, typed), read(&file, 5, typed));
-                if a != b {
-                    return Err(("twins-differ-after-update".into(), format!("{} read: the object that was stored directly reads {}, the one that was stored in an object stream reads {}", if typed { "typed" } else { "raw" }, a, b)));
+                let got = read(&file, id, typed);
+                if got != want {
+                    return Err(("value-after-update-depends-on-storage".into(), format!("{} read of the twin that was stored {}: {} (the new value is {}, which is what the other twin reads after the same steps)", if typed { "typed" } else { "raw" }, ["as an ordinary object", "in an object stream"][which], got, want)));
                 }
             }
             Ok(())
@@ -353,7 +355,7 @@ pub fn run(tier: Tier, _seed: u64, tally: &mut Tally) -> CheckMeta {
     CheckMeta {
         prop: "C11",
         level: "model_checking",
-        rule: format!("full product of {} values (C03 catalogue: every kind, all kind pairs, depth 20) x position in the object stream {{middle, only, first, last}} x trailing white-space {{LF, SP, none after the last member, CRLF}}, with <= {} deviations among object-stream filter {{flate, hex, a85+flate, lzw}}, /First beyond the header or directly after the last offset (no separator, first member beginning with a delimiter), neighbour kinds before/after (8 alternatives each), object stream added by an incremental update, the document encrypted {{RC4-128, AES-128, AES-256}} (strings of the ordinary twin encrypted one by one, those of the compressed twin only as part of the object stream); each document holds the value as direct object 4 and compressed object 5 and both are resolved and compared with the producer's value. Streams: full product of /Length form {{direct, reference to a direct integer before/after the stream, reference to a compressed integer (plain / flate object stream)}} x data x EOL. Twins in a document that is being modified: {{cached, uncached}} x {{typed, raw, no}} read before the update x 3 new values: both twins are replaced through Updater::update and read again (typed and raw): same answers. Distinct by file hash.", c03::catalogue().vals.len(), bound),
+        rule: format!("full product of {} values (C03 catalogue: every kind, all kind pairs, depth 20) x position in the object stream {{middle, only, first, last}} x trailing white-space {{LF, SP, none after the last member, CRLF}}, with <= {} deviations among object-stream filter {{flate, hex, a85+flate, lzw}}, /First beyond the header or directly after the last offset (no separator, first member beginning with a delimiter), neighbour kinds before/after (8 alternatives each), object stream added by an incremental update, the document encrypted {{RC4-128, AES-128, AES-256}} (strings of the ordinary twin encrypted one by one, those of the compressed twin only as part of the object stream); each document holds the value as direct object 4 and compressed object 5 and both are resolved and compared with the producer's value. Streams: full product of /Length form {{direct, reference to a direct integer before/after the stream, reference to a compressed integer (plain / flate object stream)}} x data x EOL. Twins in a document that is being modified: {{cached, uncached}} x {{typed, raw, no}} read before the update x 3 new values x which twin: the twin is replaced through Updater::update and read again (typed and raw): the new value, whichever way the old one was stored. Distinct by file hash.", c03::catalogue().vals.len(), bound),
         assumptions: vec!["members of an object stream are separated by white-space except after the last one".into()],
         exhaustive: true,
         bounds: json!({"deviations": bound}),
